@@ -16,7 +16,7 @@ for d in /verif/seeded/*/; do
   name=$(basename "$d")
   case "$name" in *"$pat"*) ;; *) continue;; esac
   prop=$(python3 -c "import json,sys; print(json.load(open('$d/meta.json'))['property'])")
-  missed=$(python3 -c "import json,sys; print('MISSED' if 'MISSED' in json.load(open('$d/meta.json'))['detected_by'].upper() else '')")
+  missed=$(python3 -c "import json,sys; print('MISSED' if json.load(open('$d/meta.json'))['detected_by'].upper().startswith('MISSED') else '')")
   git -C "$wt" checkout -q -- . && git -C "$wt" clean -fdq
   if ! git -C "$wt" apply "$d/patch.diff" 2>/dev/null; then echo "SKIP $name: patch no longer applies to HEAD"; continue; fi
   n=$((n+1))
